@@ -15,6 +15,7 @@ pub mod psetdesc;
 pub mod c08;
 pub mod c14;
 pub mod c09;
+pub mod c10;
 
 pub fn run(prop: &str, rng: &mut R, out: &mut Out, extra: &[String]) -> bool {
     let _ = extra;
@@ -33,6 +34,7 @@ pub fn run(prop: &str, rng: &mut R, out: &mut Out, extra: &[String]) -> bool {
         "C08" => c08::run(rng, out),
         "C14" => c14::run(rng, out),
         "C09" => c09::run(rng, out),
+        "C10" => c10::run(rng, out),
         _ => return false,
     }
     true
@@ -62,6 +64,7 @@ pub fn probe(args: &[String]) {
             println!("cbor roundtrip: {:?}", r.as_ref().map(|x| *x == p).map_err(|e| e.to_string()));
         }
         Some("c20-short-commitment") => c20::probe_short_commitment(&args[1..]),
+        Some("c10-decode-pset") => c10::crash_probe(&args[1..]),
         _ => println!("unknown probe"),
     }
 }
